@@ -151,7 +151,8 @@ def plainFlags : Flags :=
 
 /-- `AvroWriter` -/
 def avroFlags : Flags :=
-  { needsHeader := true, writeEmitsHeader := true, flushEmitsHeader := true, closeEmitsHeader := Gen.avroCloseFlushes,
+  { needsHeader := true, writeEmitsHeader := true, flushEmitsHeader := Gen.avroFlushCreatesWriter,
+    closeEmitsHeader := Gen.avroCloseFlushes,
     writeBuffers := true, closeFlushes := Gen.avroCloseFlushes, flushAfterCloseRaises := Gen.avroFlushCreatesWriter,
     headerOnlyFlushPoisons := Gen.avroFlushCreatesWriter }
 
